@@ -36,6 +36,7 @@ type c18Resp struct {
 	extra       int
 	extraVals   []string // values of the extra headers, fixed by the script so that every build of the head has the same length
 	piggy       []wsMsg  // frames in the same byte string as the response
+	body        []byte   // bytes behind the head of a response that must be rejected (an HTTP body, or frames sent too early)
 	later       []wsMsg  // frames sent a little later
 	cuts        []int    // segmentation of response+piggy
 	closeAfter  int      // close the connection after this many bytes (-1: never)
@@ -190,6 +191,7 @@ func (sv *c18Server) serve(r *vf.Rand, rs *c18Resp, out chan<- c18Result, releas
 		}
 		payload = append(payload, wsref.Frame{Fin: true, Opcode: op, Payload: m.Payload}.Encode()...)
 	}
+	payload = append(payload, rs.body...)
 	if rs.closeAfter >= 0 && rs.closeAfter < len(payload) {
 		payload = payload[:rs.closeAfter]
 	}
@@ -355,6 +357,17 @@ func c18Script(r *vf.Rand) *c18Resp {
 			rs.later = append(rs.later, wsMsg{Text: r.Bool(), Payload: asciiBytes(r, r.Intn(200))})
 		}
 	}
+	if !rs.expectOK && r.Chance(1, 2) {
+		// a refusal with something behind its head: an HTTP body, or frames of a server that did not wait
+		if r.Bool() {
+			rs.body = asciiBytes(r, r.Range(1, 300))
+		} else {
+			for i := 0; i < r.Range(1, 3); i++ {
+				rs.body = append(rs.body, wsref.Frame{Fin: true, Opcode: wsref.OpText, Payload: asciiBytes(r, r.Range(0, 60))}.Encode()...)
+			}
+		}
+		desc += "+body"
+	}
 	rs.description = desc
 	return rs
 }
@@ -387,6 +400,10 @@ func runC18(c *vf.Case) {
 		total := len(probe)
 		for _, m := range rs.piggy {
 			total += len(wsref.Frame{Fin: true, Opcode: 1, Payload: m.Payload}.Encode())
+		}
+		total += len(rs.body)
+		if len(rs.body) > 0 {
+			c.Count("refusals_with_bytes_behind_the_head", 1)
 		}
 		segClass := "whole"
 		switch r.Intn(6) {
@@ -639,7 +656,7 @@ func init() {
 		ID:        "C18",
 		Technique: "runtime monitor with the harness as a raw TCP server: request validation, acceptance predicate computed independently (own SHA-1/base64 path), scripted responses (status, header set/order/case/whitespace, wrong accept, truncation, segmentation) and piggy-backed wsref frames compared with what the client reads; bounded-progress probes for lost bytes",
 		Rule: "piggy-backed payloads may end in CR LF CR LF; a tenth of the heads carry 8-40 KiB of extra header; one response class is a head far over 64 KiB that never ends; one accepted handshake in eight is followed by 6-14 frames of about 1 KB in the same bytes; a server that stops in mid-response half-closes and waits for the client's end; " +
-			"cases = 1-4 consecutive handshakes on one Stream (blocking and asynchronous), each against a scripted response: status {101, 101 with other text, 200, 400}, Upgrade {websocket in 3 spellings, other, absent}, Connection present/absent, Accept {correct, wrong, of another key, missing, correct with its letter case changed, correct with the base64 padding bits changed}, 0-3 extra headers, header order permuted, header-name case {canonical, lower, upper}, separator {': ', ':', ':   ', trailing blanks}, response+frames sent whole / cut at 1-2 random offsets / cut exactly at the blank line / cut inside the CRLF CRLF, server closing after k bytes, 0-3 frames piggy-backed and 0-2 sent later; after an accepted handshake optionally a small AsyncWrite that must complete, and one session in three is torn down with an asynchronous write still in flight; " +
+			"cases = 1-4 consecutive handshakes on one Stream (blocking and asynchronous), each against a scripted response: status {101, 101 with other text, 200, 400}, Upgrade {websocket in 3 spellings, other, absent}, Connection present/absent, Accept {correct, wrong, of another key, missing, correct with its letter case changed, correct with the base64 padding bits changed}, 0-3 extra headers, header order permuted, header-name case {canonical, lower, upper}, separator {': ', ':', ':   ', trailing blanks}, response+frames sent whole / cut at 1-2 random offsets / cut exactly at the blank line / cut inside the CRLF CRLF, server closing after k bytes, every other refusal followed by an HTTP body or by frames in the same bytes, 0-3 frames piggy-backed and 0-2 sent later; after an accepted handshake optionally a small AsyncWrite that must complete, and one session in three is torn down with an asynchronous write still in flight; " +
 			"every case is non-trivial; distinct = sequence of (response class, segmentation, API)",
 		Assumptions: []string{
 			"acceptance = status 101 AND Upgrade: websocket (case-insensitive) AND Sec-WebSocket-Accept = base64(sha1(key+GUID)), exactly as the statement lists; the Connection response header is not part of it",
